@@ -39,7 +39,7 @@ def _neutral_doc(prop_name: str = "neutral_name", param_name: str = "neutral_par
             "/cq/{id}": {
                 "post": {
                     "operationId": "captureQuery",
-                    "parameters": [param("id", "path", STR), param(param_name, "query", STR), param("X-Plain", "header", STR), param("c-plain", "cookie", STR)],
+                    "parameters": [param("id", "path", STR), param("plain-d", "query", DATE), param(param_name, "query", STR), param("X-Plain", "header", STR), param("c-plain", "cookie", STR)],
                     "requestBody": {"content": {"application/json": {"schema": ref("Leaf")}}},
                     "responses": {"200": jresp(ref("CaptureModel"))},
                 },
@@ -82,7 +82,7 @@ def candidates() -> dict[str, list[str]]:
         for scope in out:
             out[scope] |= set(keyword.kwlist) | {"self", "cls", "client", "url"}
             # names that are simply the Python names of the document's *other* properties/parameters are C09's subject
-            own = {"other_prop", "a_list", "leaf_id", "id", "x_plain", "c_plain", "plain_q", "neutral_param", "neutral_name", "u_first", "after_date", "opt_null", "nested_m", "an_enum"}
+            own = {"other_prop", "a_list", "leaf_id", "id", "x_plain", "c_plain", "plain_q", "plain_d", "neutral_param", "neutral_name", "u_first", "after_date", "opt_null", "nested_m", "an_enum"}
             out[scope] = {n for n in out[scope] if n.isidentifier() and not n.startswith("neutral") and n not in own}
         del builtins
         return {k: sorted(v) for k, v in out.items()}
